@@ -54,7 +54,7 @@ def do_call(ev, e, want):
             r = spec_call(ev, n, e)
             if r is not None:
                 return r
-        if n in ("len", "min", "max", "abs", "float", "int", "sorted", "print", "range", "super", "sum", "bool"):
+        if n in ("len", "min", "max", "abs", "float", "int", "sorted", "print", "range", "super", "sum", "bool", "list"):
             if n not in ev.st.locals:
                 return builtin_call(ev, n, e, want)
     # library function?
@@ -195,6 +195,16 @@ def builtin_call(ev, n, e, want):
         return Val(z3.If(v.t >= 0, v.t, -v.t), v.ty)
     if n == "float":
         return _real(ev, args[0], e)
+    if n == "list":
+        L = args[0]
+        if L.ty.k != "list":
+            raise Unsupported("list() of %s" % L.ty)
+        if L.ty.elem.k == "unk":
+            return Val(ev.u.alloc(ev.st), L.ty)
+        ex = None
+        if reflike(L.ty.elem):
+            ex = ev.u.get_arr(ev.st, "idx:" + ev.ct.erase(L.ty), L.ty.elem)[L.t]
+        return ev.lalloc(L.ty.elem, ev.llen(L), ev.lelts(L), exact_idx=ex)
     if n == "bool":
         return Val(ev.it.truth_code(args[0], ev), BOOL)
     if n == "sorted":
